@@ -7,6 +7,9 @@ TRUSTED_BASE = [
     "the reading of the English property as the Coq statements in coq/Props (DESIGN.md section 6)",
 ]
 
+HOOK_COMMITS = []
+NOT_APPLICABLE = {}
+
 DOMAINS = {
     "semver": {"timeout": 1200},
 }
@@ -15,6 +18,9 @@ PROPS = {
     "C20": {
         "props": "Props/Properties_C20.v",
         "level": "proof",
+        "technique": "Coq proof over a Gallina model of version.rs + exhaustive-grid correspondence against the Rust implementation",
+        "level_text": "11 Coq theorems (print/parse round trip, grammar of u32 parsing, which error variant and payload, lexicographic order, tuple inverses, bumps) about Model/SemVer.v, closed under the global context; the model is tied to src/version.rs by running both on a grid including u32 extremes and a grammar of well/ill-formed strings on every run.",
+        "level_note": "Trusted: Coq kernel, ExtrOcamlBasic extraction, the harness/driver; Rust std (split, u32::from_str, format!) is modelled, not verified; behaviour at u32::MAX bumps is outside the property's guard.",
         "domains": ["semver"],
         "exhaustive": True,
         "rule": "grid {0,1,9,10,2^32-2,2^32-1}^3 of versions (display, round-trip, tuple, bumps below MAX: exhaustive); "
